@@ -45,3 +45,12 @@ CASES = [
       "                numpy.einsum('abcd,cdef->abef', Udt, self.data[ti-1,:,:,:,:])        "),
     t("tensordot with explicit default axes", "            Udt = numpy.tensordot(Ut1, Udt)", "            Udt = numpy.tensordot(Ut1, Udt, axes=2)"),
 ]
+
+CASES += [
+    t("locals renamed in the elemental step",
+      "        rhonm0 = ReducedDensityMatrix(dim=dim)\n        Ut1 = numpy.zeros((dim, dim, dim, dim), dtype=COMPLEX)\n        for n in range(dim):\n            for m in range(dim):\n                rhonm0.data[n,m] = 1.0\n                rhot = prop.propagate(rhonm0)\n                Ut1[:,:,n,m] = rhot.data[1,:,:]\n                rhonm0.data[n,m] = 0.0\n                \n        return Ut1",
+      "        basis = ReducedDensityMatrix(dim=dim)\n        Ustep = numpy.zeros((dim, dim, dim, dim), dtype=COMPLEX)\n        for p in range(dim):\n            for q in range(dim):\n                basis.data[p,q] = 1.0\n                evol = prop.propagate(basis)\n                Ustep[:,:,p,q] = evol.data[1,:,:]\n                basis.data[p,q] = 0.0\n                \n        return Ustep"),
+    t("locals renamed in the dense powers",
+      "        Ut1 = self._elemental_step_TimeIndep(t0, dens_dt, Nt)\n        #\n        # propagation to the end of the first interval\n        #\n        Udt = numpy.zeros(Ut1.shape, dtype=COMPLEX)\n        Udt[:,:,:,:] = Ut1[:,:,:,:]\n        for ti in range(2, self.dense_time.length):\n            Udt = numpy.tensordot(Ut1, Udt)\n        return Udt",
+      "        Ue = self._elemental_step_TimeIndep(t0, dens_dt, Nt)\n        Uacc = numpy.zeros(Ue.shape, dtype=COMPLEX)\n        Uacc[:,:,:,:] = Ue[:,:,:,:]\n        for kk in range(2, self.dense_time.length):\n            Uacc = numpy.tensordot(Ue, Uacc)\n        return Uacc"),
+]
